@@ -108,7 +108,22 @@ TREE = {
     "root/None": "root/None\n",
     "root/\xe9": "root/e-acute (named by %c3%a9 and by the raw character)\n",
     "root/\xe9.j2": "root/e-acute.j2\n",
+    # names with characters a too-strict filter or a not-quite-equivalent rewrite could trip over
+    "root/[x": "root/[x\n",
+    "root/x]/f.txt": "root/x]/f.txt\n",
+    "root/[::1/f.txt": "root/[::1/f.txt\n",
+    "root/a b": "root/a b\n",
+    "root/x\ny": "root/x<LF>y\n",
+    "root/f.txt\n": "root/f.txt<LF>\n",
+    "root/ ": "root/<space>\n",
+    "root/~#&=+;,$!*'()": "root/punctuation\n",
+    # legal names at and beyond natural limits
+    "root/" + "n" * 100: "root/n*100\n",
+    "root/" + "m" * 255: "root/m*255 (exactly NAME_MAX)\n",
+    "root/" + "/".join(["d%02d" % i + "x" * 46 for i in range(6)]) + "/f.txt": "root/<six 50-character directories>/f.txt\n",
 }
+for _depth in (16, 17, 64, 65):
+    TREE["root/" + "e/" * _depth + "f"] = "root/<%d nested directories>/f\n" % _depth
 
 HIST_OPS = ["R", "G", "A", "D", "W1", "W2"]
 HIST_CONTENT = {"W0": "zero\n", "W1": "one one\n", "W2": "two two two\n"}
@@ -287,6 +302,43 @@ class C04(Check):
                 seq = [rng.choice(toks) for _ in range(rng.randrange(3, 7))]
                 yield {"tftp": bool(rng.randrange(2)), "cfg": vcfg, "uri": ruri, "hist": [o for t in seq for o in t] + ["R"],
                        "hfile": hfile, "cache": False}
+        # every character in every position, and legal requests at and beyond every natural limit
+        for cfg in (mkcfg("/", False, False, ""), mkcfg("/", False, True, ""), mkcfg("/p", False, False, ".j2"),
+                    mkcfg("/p", True, True)):
+            pre = "" if cfg["rpath"] == "/" else cfg["rpath"]
+            for tftp in (False, True):
+                seen = set()
+                pats = ["/f.txt%s", "/%sf.txt", "/a/%s", "//%sx/f.txt", "//x%s/f.txt", "/a%s/f.txt", "%s"]
+                if tftp:
+                    pats = pats[0::3]
+                if cfg["filemode"]:
+                    pats = ["%s", "/%s"]
+                for x in fileh.char_sweep():
+                    for pat in pats:
+                        u = pre + pat.replace("%s", x)
+                        if u not in seen:
+                            seen.add(u)
+                            yield {"tftp": tftp, "cfg": cfg, "uri": u}
+                names = ["/f.txt", "/" + "n" * 100, "/" + "m" * 255, "/" + "m" * 256, "/a/f.txt",
+                         "/" + "/".join(["d%02d" % i + "x" * 46 for i in range(6)]) + "/f.txt",
+                         "/[x", "//[x", "//x]/f.txt", "//[::1/f.txt?a=b", "/a b", "/a%20b", "/x%0Ay", "/f.txt%0a", "/%20",
+                         "/~#&=+;,$!*'()".replace("#", "%23")] + ["/" + "e/" * d + "f" for d in (16, 17, 64, 65)]
+                if cfg["filemode"]:
+                    names = [""]
+                longs = []
+                for nm in names:
+                    base = pre + nm
+                    longs.append(base)
+                    longs.append(pre + "/".join(fileh.pct_all(seg) for seg in nm.split("/")))
+                    longs.extend(fileh.long_requests(base, (255, 256, 257, 300, 1000) if (nm != "/f.txt" or cfg["template"] or cfg["suffix"]) else
+                                                     (255, 256, 257, 300, 1000, 4096, 4097)))
+                    for k in (254, 255, 256, 300):
+                        if nm and not cfg["filemode"]:
+                            longs.append(pre + "/" * k + nm.lstrip("/"))
+                for u in longs:
+                    if u not in seen:
+                        seen.add(u)
+                        yield {"tftp": tftp, "cfg": cfg, "uri": u}
         for ci, cfg in enumerate(cfgs):
             main = (cfg["rpath"] == "/" and not cfg["filemode"] and cfg.get("target_raw") is None)
             n = n_all if (main and not cfg["suffix"] and (tier == "quick" or not cfg["template"])) else n_all - 1
@@ -298,6 +350,8 @@ class C04(Check):
             strings_tftp = strings_all if (tier == "quick" or n < 4) else list(fileh.tokens_upto(ALPHABET, n - 1))
             for tftp in (False, True):
                 strings = strings_tftp if tftp else strings_all
+                if tier == "quick" and tftp and main and cfg["template"] and n == n_all:
+                    strings = list(fileh.tokens_upto(ALPHABET, n - 1))   # the HTTP twin keeps the larger scope
                 if "/" in cfg["suffix"] and not tftp:
                     continue      # the HTTP class derives the content type from basename minus suffix (asserts)
                 seen = set()
